@@ -57,6 +57,7 @@ impl Check for C13C {
             expand: stage != format!("bfs{}", depth - 1),
             order_queries: &[],
             warm_queries: &[],
+            max_depth: vec![],
         })
     }
     fn meta(&self) -> Meta {
